@@ -232,6 +232,152 @@ theorem C16_units (d : Doc) (h : WF d) (ds dt : Bool) (out : Out) (hc : convert 
   exact ⟨h5, h6⟩
 
 
+theorem aget_some_mem (a : Attrs) (k : String) (v : Val) (h : aget? a k = some v) : (k, v) ∈ a := by
+  unfold aget? at h
+  cases hf : a.find? (fun kv => kv.1 == k) with
+  | none => rw [hf] at h; cases h
+  | some x =>
+    rw [hf] at h
+    simp only [Option.map_some, Option.some.injEq] at h
+    have hm := List.mem_of_find?_eq_some hf
+    have hk : x.1 = k := by simpa using List.find?_some hf
+    rw [← hk, ← h]; exact hm
+
+/-- every value stored under a declared feature name `k` (other than the two names the converter adds)
+is the `isint`-typed text of some spot -/
+theorem column_values_typed (d : Doc) (h : WF d) (ds dt : Bool) (k : String) (f : Feat)
+    (hf : mdLookup (attrsMd d) k = some f) (hk1 : k ≠ "TRACK_ID") (hk2 : k ≠ "ROI_coords") (v : Val)
+    (hv : v ∈ (((finalGraph d ds dt).nodes.map (·.2)).map (fun a => aget? a k)).filterMap id) :
+    ∃ t, Typed f t v := by
+  simp only [List.mem_filterMap, List.mem_map, id] at hv
+  obtain ⟨c, ⟨a, ⟨p, hp, rfl⟩, rfl⟩, hc⟩ := hv
+  simp only [finalGraph, restrictTo, List.mem_filter, fullGraph, stamped, baseNodes, List.map_map, List.mem_map,
+    Function.comp] at hp
+  obtain ⟨⟨s, hs, rfl⟩, _⟩ := hp
+  obtain ⟨a, ha⟩ := (h.spotOk s hs).conv
+  have hst : k ∉ (stampOf (links d) (spotId s)).map (·.1) := by
+    unfold stampOf
+    cases (links d).find? (fun x => touches x.1 (spotId s)) with
+    | none => simp
+    | some x => simpa using hk1
+  have : aget? (spotAttrs (attrsMd d) s ++ stampOf (links d) (spotId s)) k = aget? a k := by
+    have h1 : aget? (spotAttrs (attrsMd d) s ++ stampOf (links d) (spotId s)) k = aget? (spotAttrs (attrsMd d) s) k := by
+      by_cases hm : k ∈ (spotAttrs (attrsMd d) s).map (·.1)
+      · exact aget_append_left _ _ _ hm
+      · rw [aget_append_right _ _ _ hm, aget_none _ _ hst, aget_none _ _ hm]
+    rw [h1, aget_spotAttrs _ _ _ hk2, ha]
+  simp only at hc
+  rw [this] at hc
+  obtain ⟨t, _, hconv⟩ := convertAttributes_mem' ha (aget_some_mem a k v hc)
+  exact ⟨t, convertOne_declared hf hconv⟩
+
+theorem columnKind_int (cells : List (Option Val)) (hne : (cells.filterMap id).isEmpty = false)
+    (hall : (cells.filterMap id).all isI = true) : columnKind cells = .int64 := by
+  unfold columnKind
+  simp only [hne, hall, Bool.false_eq_true, if_false, if_true]
+
+theorem columnKind_float (cells : List (Option Val)) (hne : (cells.filterMap id).isEmpty = false)
+    (hnotI : (cells.filterMap id).all isI = false) (hnum : (cells.filterMap id).all isNum = true) :
+    columnKind cells = .float64 := by
+  unfold columnKind
+  simp only [hne, hnotI, hnum, Bool.false_eq_true, if_false, if_true]
+
+/-- **C16 (feature dtype)**: a stored spot feature declared `isint="true"` is an `int64` column; one
+declared `isint="false"` is a `float64` column unless some text is not a number (then TrackMate's
+string fallback applies). -/
+theorem C16_feature_dtype (d : Doc) (h : WF d) (ds dt : Bool) (out : Out) (hc : convert d ds dt = .ok out)
+    (p : PropOut) (hp : p ∈ out.nodeProps) (f : Feat) (hf : mdLookup (attrsMd d) p.name = some f)
+    (hk1 : p.name ≠ "TRACK_ID") (hk2 : p.name ≠ "ROI_coords") :
+    (f.isint = some true → p.col.kind = .int64) ∧
+    (f.isint = some false → (∀ v ∈ p.col.cells.filterMap id, ∀ s, v ≠ .s s) → p.col.kind = .float64) := by
+  obtain ⟨_, _, hcols, _⟩ := convert_out d h ds dt out hc
+  have hmem : (p.name, p.col) ∈ columns ((finalGraph d ds dt).nodes.map (·.2)) := by
+    rw [← hcols]; exact List.mem_map.2 ⟨p, hp, rfl⟩
+  simp only [columns, List.mem_map, Prod.mk.injEq] at hmem
+  obtain ⟨k, hk, hkn, hcol⟩ := hmem
+  rw [← hkn] at hf hk1 hk2
+  have hcells : p.col.cells = ((finalGraph d ds dt).nodes.map (·.2)).map (fun a => aget? a k) := by rw [← hcol]
+  have hkind : p.col.kind = columnKind (((finalGraph d ds dt).nodes.map (·.2)).map (fun a => aget? a k)) := by rw [← hcol]
+  -- the column is not empty: some node has the attribute
+  obtain ⟨a, ha, hka⟩ := (propNames_mem _ _).1 hk
+  have hne : ((((finalGraph d ds dt).nodes.map (·.2)).map (fun a => aget? a k)).filterMap id).isEmpty = false := by
+    cases hv : aget? a k with
+    | none => exact absurd hka ((aget_none_iff a k).1 hv)
+    | some v =>
+      have : v ∈ (((finalGraph d ds dt).nodes.map (·.2)).map (fun a => aget? a k)).filterMap id := by
+        simp only [List.mem_filterMap, List.mem_map, id]
+        exact ⟨some v, ⟨a, List.mem_map.1 ha, hv⟩, rfl⟩
+      cases hl : (((finalGraph d ds dt).nodes.map (·.2)).map (fun a => aget? a k)).filterMap id with
+      | nil => rw [hl] at this; cases this
+      | cons _ _ => rfl
+  have htyped := column_values_typed d h ds dt k f hf hk1 hk2
+  constructor
+  · intro hint
+    rw [hkind]
+    apply columnKind_int _ hne
+    rw [List.all_eq_true]
+    intro v hv
+    obtain ⟨t, ht⟩ := htyped v hv
+    rcases ht with ⟨_, n, txt, _, rfl⟩ | ⟨hfalse, _⟩
+    · rfl
+    · rw [hint] at hfalse; cases hfalse
+  · intro hflt hnostr
+    rw [hkind]
+    have hshape : ∀ v ∈ (((finalGraph d ds dt).nodes.map (·.2)).map (fun a => aget? a k)).filterMap id,
+        ∃ t, v = .f t := by
+      intro v hv
+      obtain ⟨t, ht⟩ := htyped v hv
+      rcases ht with ⟨htrue, _⟩ | ⟨_, ⟨n, txt, _, rfl⟩ | ⟨s', _, rfl⟩ | ⟨s', _, rfl⟩⟩
+      · rw [hflt] at htrue; cases htrue
+      · exact ⟨_, rfl⟩
+      · exact ⟨_, rfl⟩
+      · exact absurd rfl (hnostr _ (by rw [hcells]; exact hv) s')
+    have hnotI : ((((finalGraph d ds dt).nodes.map (·.2)).map (fun a => aget? a k)).filterMap id).all isI = false := by
+      cases hl : (((finalGraph d ds dt).nodes.map (·.2)).map (fun a => aget? a k)).filterMap id with
+      | nil => rw [hl] at hne; cases hne
+      | cons v rest =>
+        obtain ⟨t, rfl⟩ := hshape v (by rw [hl]; simp)
+        simp [isI]
+    have hnum : ((((finalGraph d ds dt).nodes.map (·.2)).map (fun a => aget? a k)).filterMap id).all isNum = true := by
+      rw [List.all_eq_true]
+      intro v hv
+      obtain ⟨t, rfl⟩ := hshape v hv
+      rfl
+    exact columnKind_float _ hne hnotI hnum
+
+/-- the cell of edge `e` under edge property `k` -/
+abbrev edgeCell (out : Out) (k : String) (e : Nat × Nat) : Option Val := cellOf out.edges out.edgeProps k e
+
+/-- **C16 (edge features)**: for a kept link and a declared feature `k`, the value stored under `k` on
+the edge source → target is the link's attribute text typed by `isint`, and is flagged missing when
+the link has no such attribute (`SPOT_SOURCE_ID` / `SPOT_TARGET_ID` are attributes of every link). -/
+theorem C16_edge_features (d : Doc) (h : WF d) (ds dt : Bool) (out : Out) (hc : convert d ds dt = .ok out)
+    (x : Edge × Val) (hx : x ∈ links d)
+    (h1 : keepSpot d ds dt x.1.s = true) (h2 : keepSpot d ds dt x.1.t = true)
+    (hkeys : ((edgeTexts x.1).map (·.1)).Nodup)
+    (k : String) (f : Feat) (hf : mdLookup (attrsMd d) k = some f) :
+    (∀ t, (k, t) ∈ edgeTexts x.1 → ∃ v, edgeCell out k (x.1.s, x.1.t) = some v ∧ Typed f t v) ∧
+    (k ∉ (edgeTexts x.1).map (·.1) → edgeCell out k (x.1.s, x.1.t) = none) := by
+  obtain ⟨_, he, _, hp, _⟩ := convert_out d h ds dt out hc
+  obtain ⟨hkn, hcl⟩ := final_closed d h ds dt
+  have hmemE := (mem_final_edges d h ds dt (edgeEntry (attrsMd d) x)).2 ⟨x, hx, rfl, h1, h2⟩
+  have hmem : edgeEntry (attrsMd d) x ∈ nxEdges (finalGraph d ds dt) :=
+    (mem_nxEdges _ _).2 ⟨hmemE, (hcl _ hmemE).1⟩
+  obtain ⟨a, ha⟩ := h.edgesOk.conv x hx
+  have hcell : edgeCell out k (x.1.s, x.1.t) = aget? a k := by
+    have := cellOf_columns (nxEdges (finalGraph d ds dt)) out.edgeProps hp
+      (nxEdges_nodup _ hkn (final_edges_nodup d h ds dt)) k _ hmem
+    simp only [edgeCell, he]
+    rw [show (x.1.s, x.1.t) = (edgeEntry (attrsMd d) x).1 from rfl, this]
+    simp [edgeEntry, edgeAttrs, ha]
+  have hak := convertAttributes_keys ha
+  constructor
+  · intro t ht
+    obtain ⟨v, hv, hm⟩ := convertAttributes_mem ha ht
+    exact ⟨v, by rw [hcell, aget_of_mem a k v (by rw [hak]; exact hkeys) hm], convertOne_declared hf hv⟩
+  · intro hnot
+    rw [hcell, aget_none a k (by rw [hak]; exact hnot)]
+
 /-! ## Lineage validity of the output -/
 
 /-- the nodes of the output that carry a TRACK_ID, each with it (the nodes whose TRACK_ID is flagged
